@@ -372,7 +372,35 @@ func (p *Program) Named(rel, name string) *types.Named {
 	}
 	tn, _ := pkg.Types.Scope().Lookup(name).(*types.TypeName)
 	if tn == nil {
-		return nil
+		// a private state struct that was renamed: recognise it by a field only it has
+		want, ok := map[string]string{"programState": "[]Sender", "argsParser": "[]Value"}[name]
+		if !ok {
+			return nil
+		}
+		var found *types.Named
+		for _, nm := range pkg.Types.Scope().Names() {
+			t, ok := pkg.Types.Scope().Lookup(nm).(*types.TypeName)
+			if !ok || t.Exported() {
+				continue
+			}
+			nt, ok := t.Type().(*types.Named)
+			if !ok {
+				continue
+			}
+			st, ok := nt.Underlying().(*types.Struct)
+			if !ok {
+				continue
+			}
+			for i := 0; i < st.NumFields(); i++ {
+				if types.TypeString(st.Field(i).Type(), func(*types.Package) string { return "" }) == want {
+					if found != nil && found != nt {
+						return nil // ambiguous
+					}
+					found = nt
+				}
+			}
+		}
+		return found
 	}
 	n, _ := tn.Type().(*types.Named)
 	if n == nil {
